@@ -76,3 +76,13 @@ func VerifC01LegacyAgreement() {
 	}
 	verifnd.Reach("C01.legacy.agree")
 }
+
+// VerifC01GenerationHistory: C01's "the derivation is a fixed function of those inputs" for the
+// phantom and the port-randomisation flag that decides the destination port (443 or the seeded
+// port): the exploration of VerifC14History under C01 - two ClientConf generations that list the
+// same networks with different weights and flags, selections for one generation after the
+// other: what the station derives for a registration is what that registration's generation
+// alone dictates (which is what the client, holding only that generation, computes), whatever
+// the station derived before for clients of another generation.
+// verif:shards=2
+func VerifC01GenerationHistory() { VerifC14History() }
